@@ -245,6 +245,7 @@ for _p, _o in _OWNS.items():
     PROPS[_p]["owns"] = _o
 PROPS["C06"]["engines"] = PROPS["C06"]["engines"] + [E2_LOG]
 PROPS["C11"]["engines"] = PROPS["C11"]["engines"] + [E3_AE, E2_LOG]
-PROPS["C19"]["engines"] = PROPS["C19"]["engines"] + [E2_LOG, E2_SS]
+E1_TR = {"test": "TestE1Transport", "env": {"quick": {"VERIF_N": 100}, "thorough": {"VERIF_N": 1200}}, "shards": {"quick": 1, "thorough": 4}}
+PROPS["C19"]["engines"] = PROPS["C19"]["engines"] + [E1_TR, E2_LOG, E2_SS]
 PROPS["C19"]["deps"] = ["C12", "C13"]
-PROPS["C19"]["explanation"] += " Storage read-back: the E2 engines (operation scripts on the real log / state / snapshot storages, reopened with the real constructors) report every state without an operation in flight whose read-back differs from what was written."
+PROPS["C19"]["explanation"] += " The bundled transport itself: E1-transport sends generated requests between two real transports on loopback (incl. requests of several entries adding up to MiB and snapshot chunks up to and beyond the 4 MiB limit) and compares what the handler and the caller see with what was passed in. Storage read-back: the E2 engines (operation scripts on the real log / state / snapshot storages, reopened with the real constructors) report every state without an operation in flight whose read-back differs from what was written."
